@@ -414,6 +414,11 @@ def stepCore (e : Env) (line : String) : Env × String :=
       let some n := ns.toNat? | throw "bad n"
       pure (e, showSpec (Pepit.Method.pg γ n))
     | "spec.gfsc" :: _ => pure (e, showSpec Pepit.Method.gfsc)
+    | "spec.gdl1" :: _ :: l :: g :: ns :: _ =>
+      let some L := parseRat l | throw "bad rat"
+      let some γ := parseRat g | throw "bad rat"
+      let some n := ns.toNat? | throw "bad n"
+      pure (e, showSpec (Pepit.Method.gdl1 L γ n))
     | "spec.subg" :: _ :: g :: ns :: _ =>
       let some γ := parseRat g | throw "bad rat"
       let some n := ns.toNat? | throw "bad n"
